@@ -1336,3 +1336,100 @@ def resolved_method(I, op, lv, rv):
         if p is not None and isinstance(p[1], Function):
             return p[1].key
     return None
+
+
+def check_array_branch_dimension(run, rule='R6d'):
+    """The reflected operators of the quaternion / twist / spatial-vector classes forward `left * <coefficient array>` to the left
+    operand without a type test of their own, so a pose on the left is rejected only because SMPose.__mul__ accepts an array
+    operand of exactly the pose's dimension.  Every value-returning path of the array branch of SMPose.__mul__ must therefore
+    have established isvector(right, left.N) or right.shape[0] == left.N (a 4-element coefficient array of a quaternion, or a
+    6-element twist, never has the dimension 2 or 3 of a pose)."""
+    from ..cfg import CFG, must_facts
+    from ..pattern import canon, matches
+    from ..callgraph import own_walk
+    prog = run.prog
+    f = prog.func('super_pose:SMPose.__mul__')
+    fi = FuncInfo.of(f)
+    cfg = CFG(f.node)
+    facts = must_facts(cfg)
+    reach = cfg.reachable()
+    left, right = f.params[0], f.params[1]
+    # the premise: reflected `*` methods of non-pose classes that multiply an untested left operand into their element arrays
+    smp = prog.classes.get('SMPose')
+    forwarders = []
+    fdims = set()
+    for g in prog.analysed_functions():
+        if g.cls is None or g.name != '__rmul__' or (smp is not None and smp in g.cls.mro) or len(g.params) < 2:
+            continue
+        gcfg = CFG(g.node)
+        gfacts = must_facts(gcfg)
+        other = g.params[1]
+        parents = {}
+        for x in ast.walk(g.node):
+            for ch in ast.iter_child_nodes(x):
+                parents[id(ch)] = x
+        for b in own_walk(g.node):
+            if isinstance(b, ast.BinOp) and isinstance(b.op, (ast.Mult, ast.MatMult)) and isinstance(b.left, ast.Name) and b.left.id == other:
+                st = b
+                while st is not None and gcfg.node_of(st) is None:
+                    st = parents.get(id(st))
+                gn = gcfg.node_of(st) if st is not None else None
+                gfs = gfacts.get(gn.id, frozenset()) if gn is not None else frozenset()
+                guarded = any(isinstance(fc[2].ast, ast.Call) and getattr(fc[2].ast.func, 'id', getattr(fc[2].ast.func, 'attr', None)) in ('isinstance', 'isscalar')
+                              and any(isinstance(a, ast.Name) and a.id == other for a in fc[2].ast.args[:1]) for fc in gfs)
+                if not guarded:
+                    forwarders.append('%s (%s)' % (g.key.split(':')[1], src(b, 25)))
+                    shp = Interp(prog).shape_of(g.cls.name)
+                    if shp and len(shp) == 1:
+                        fdims.add(shp[0])
+                    else:
+                        fdims.add(None)         # element size unknown: any dimension may be forwarded
+    if not forwarders:
+        run.holds(rule, f.key, 'array-branch dimension', 'no reflected * method forwards an untested left operand: the dimension test is not what '
+                  'rejects pose * quaternion / twist', f=f, nontrivial=False)
+        return 0
+    n = 0
+    for r in own_walk(f.node):
+        if not (isinstance(r, ast.Return) and r.value is not None):
+            continue
+        node = cfg.node_of(r)
+        if node is None or node.id not in reach:
+            continue
+        fs = [(fc[1], canon(fi, fc[2].ast, inline=False)) for fc in facts.get(node.id, frozenset())]
+        in_array_branch = any(pol and matches('isinstance(%s, (list, tuple, ndarray))' % right, e) is not None for (pol, e) in fs) or \
+            any(pol and matches('isinstance(%s, ndarray)' % right, e) is not None for (pol, e) in fs)
+        if not in_array_branch:
+            continue
+        n += 1
+        dim_ok = any(pol and (matches('isvector(%s, %s.N)' % (right, left), e) is not None or
+                              matches('%s.shape[0] == %s.N' % (right, left), e) is not None) for (pol, e) in fs)
+        construct = 'array-branch return ' + src(r.value, 50)
+        if dim_ok:
+            run.holds(rule, f.key, construct, 'reached only with an array operand of the dimension of the pose', f=f, node=r)
+        else:
+            dims = [src(e, 40) for (pol, e) in fs if pol and (matches('isvector(%s, _K)' % right, e) is not None or matches('%s.shape[0] == _K' % right, e) is not None)]
+            # the sizes this path accepts, when the test has the form K = left.N + c / c
+            accepted = None
+            for (pol, e) in fs:
+                b_ = (matches('isvector(%s, _K)' % right, e) or matches('%s.shape[0] == _K' % right, e)) if pol else None
+                if b_ is None:
+                    continue
+                K = b_['_K']
+                c_ = None
+                if isinstance(K, ast.Constant) and isinstance(K.value, int):
+                    c_ = {K.value}
+                elif matches('%s.N + _C' % left, K) is not None and isinstance(matches('%s.N + _C' % left, K)['_C'], ast.Constant):
+                    c_ = {2 + matches('%s.N + _C' % left, K)['_C'].value, 3 + matches('%s.N + _C' % left, K)['_C'].value}
+                if c_ is not None:
+                    accepted = c_ if accepted is None else accepted & c_
+            if accepted is not None and None not in fdims and not (accepted & fdims):
+                run.undecided(rule, f.key, construct, 'accepts arrays of size %s, which no unguarded reflected operator forwards (element sizes %s)' % (
+                    sorted(accepted), sorted(fdims)), f=f, node=r)
+                continue
+            run.violation(rule, f.key, construct, 'a value is returned for an array operand whose dimension is not tested to be %s.N%s: coefficient '
+                          'arrays handed over by the reflected operators of other classes (a quaternion\'s 4 elements, a twist\'s 6) are '
+                          'then accepted, so e.g. SE3 * Quaternion returns a value instead of raising (unguarded forwarders: %s)' % (
+                              left, (' (tested instead: %s)' % ', '.join(dims)) if dims else '', ', '.join(sorted(set(forwarders))[:4])), f=f, node=r)
+    if n < 6:
+        run.error('R6d: only %d value returns found in the array branch of SMPose.__mul__ (expected >= 6)' % n)
+    return n
